@@ -474,6 +474,14 @@ func emitStrings(sb *strings.Builder, name string, ss []string) {
 }
 
 func main() {
+	if len(os.Args) >= 3 && os.Args[1] == "locksets" {
+		repo := "/repo"
+		if len(os.Args) > 3 {
+			repo = os.Args[3]
+		}
+		locksetsMain(os.Args[2], repo)
+		return
+	}
 	if len(os.Args) < 3 || os.Args[1] != "tables" {
 		fmt.Fprintln(os.Stderr, "usage: vx tables <out.v> [repo]")
 		os.Exit(2)
